@@ -21,6 +21,7 @@ mod c_bytecode;
 mod c_total;
 mod c_context;
 mod c_shape;
+mod c_deriv;
 mod helpers;
 
 use common::Report;
@@ -107,6 +108,7 @@ pub fn run(contract: &str, thorough: bool, seed: u64) -> Report {
         "total" => c_total::total(thorough, seed),
         "context_rewrites" => c_context::context_rewrites(thorough),
         "shape_bind" => c_shape::shape_bind(thorough),
+        "deriv_rules" => c_deriv::deriv_rules(thorough),
         _ => {
             eprintln!("unknown contract {contract}");
             std::process::exit(2);
@@ -128,6 +130,7 @@ fn replay(v: &serde_json::Value) -> i32 {
         "total" => c_total::replay(v),
         "context_rewrites" => c_context::replay(v),
         "shape_bind" => c_shape::replay(v),
+        "deriv_rules" => c_deriv::replay(v),
         _ => {
             eprintln!("no replay for contract {contract}");
             return 2;
